@@ -307,6 +307,20 @@ def _bracketings(ops: List[ast.AST], op_type) -> Iterator[ast.AST]:
 # ---------------------------------------------------------------------------------------------------------
 # Single-point semantic mutations
 
+def type_mutants(v: Any) -> List[Any]:
+    """Values that compare == to v but are another value in the configuration language: 2 / 2.0, True / 1, 0.0 / -0.0."""
+    if isinstance(v, bool):
+        return [int(v)]
+    if isinstance(v, int):
+        return [float(v)] + ([bool(v)] if v in (0, 1) else [])
+    if isinstance(v, float) and v == v and v not in (float("inf"), float("-inf")):
+        out: List[Any] = [int(v)] if v.is_integer() and abs(v) < 1e15 and not (v == 0.0 and str(v).startswith("-")) else []
+        if v == 0.0:
+            out.append(-v)
+        return out
+    return []
+
+
 def scalar_mutants(v: Any) -> List[Any]:
     if isinstance(v, bool):
         return [not v]
